@@ -112,6 +112,64 @@ func main() {
 	// contend for the factory mutex)
 	burst(o, r, "burst-single", 1, *burstK*6)
 	burst(o, r, "burst-concurrent", *burstG, *burstK)
+	firstPublishers(o, r, *burstK)
+}
+
+// two FIRST publishers of a brand-new topic: the first is parked in GetTopic after its
+// read-locked lookup missed, the second creates the topic, then the first continues.  Both
+// must end up on ONE Topic object (one id generator); then they publish concurrently.
+func firstPublishers(o *lib.Out, r *lib.Rand, per int) {
+	opts := nsqdlib.NewOpts(nsqdlib.ScratchDir())
+	opts.ID = int64(r.Intn(1024))
+	d, err := nsqd.New(opts)
+	if err != nil {
+		lib.Fatalf("nsqd.New: %v", err)
+	}
+	reached, release := nsqd.VerifArmPark("gettopic:after-miss", 1)
+	topics := make([]*nsqd.Topic, 2)
+	var wg sync.WaitGroup
+	wg.Add(1)
+	go func() { defer wg.Done(); topics[0] = d.GetTopic("fresh") }()
+	parked := false
+	select {
+	case <-reached:
+		parked = true
+	case <-time.After(3 * time.Second):
+	}
+	topics[1] = d.GetTopic("fresh")
+	release()
+	wg.Wait()
+	perG := make([][]int64, 2)
+	start := make(chan struct{})
+	for g := 0; g < 2; g++ {
+		wg.Add(1)
+		go func(g int) {
+			defer wg.Done()
+			<-start
+			ids := make([]int64, 0, per)
+			for i := 0; i < per; i++ {
+				h := topics[g].GenerateID()
+				v, _ := strconv.ParseUint(string(h[:]), 16, 64)
+				ids = append(ids, int64(v))
+			}
+			perG[g] = ids
+		}(g)
+	}
+	close(start)
+	wg.Wait()
+	d.Exit()
+	var lists []string
+	for _, ids := range perG {
+		parts := make([]string, len(ids))
+		for i, v := range ids {
+			parts[i] = z(v)
+		}
+		lists = append(lists, "["+strings.Join(parts, ";")+"]")
+	}
+	o.Emit(lib.Case{Name: "burst-first-publishers", Coq: "(J12.Burst [" + strings.Join(lists, ";") + "])",
+		Input: map[string]interface{}{"kind": "first-publishers", "per": per},
+		Tags:  []string{"kind=burst-first-publishers", fmt.Sprintf("first-publisher-parked=%v", parked), fmt.Sprintf("same-topic-object=%v", topics[0] == topics[1])},
+		Nontrivial: true, Obs: map[string]interface{}{"same_topic_object": topics[0] == topics[1]}})
 }
 
 func burst(o *lib.Out, r *lib.Rand, name string, goroutines, per int) {
